@@ -778,6 +778,18 @@ def rule_x6(F):
     return r
 
 
+def rule_x7(F):
+    """Every test block is executed: a test block is compiled only if the compilation order contains it, and the order is what the
+    SCC computation emits.  Shared with C14.D6."""
+    from . import c14
+    r = c14.rule_d6(F)
+    r.rule = "C19.X7"
+    r.desc = "no test block is dropped from the compilation order: Tarjan stack membership is exact (every popped vertex is unmarked)"
+    for v in r.violations:
+        v.rule = "C19.X7"
+    return r
+
+
 def rules(ctx):
     F = ctx["F"]
-    return [rule_x1(F), rule_x2(F), rule_x3(F), rule_x4(F), rule_x5(F), rule_x6(F)]
+    return [rule_x1(F), rule_x2(F), rule_x3(F), rule_x4(F), rule_x5(F), rule_x6(F), rule_x7(F)]
